@@ -670,3 +670,28 @@ Proof.
     as (em & m & -> & _ & _ & FW & _).
   exists m. rewrite FW. rewrite app_length. f_equal. f_equal. lia.
 Qed.
+
+(* ------------------------------------------------------------------ *)
+(* the third call shape of Name.to_wire: a file but no compression table.  On valid names it
+   behaves exactly like the no-file form: same octets, same NameTooLong. *)
+Theorem to_wire_file_eq n origin canon :
+  Valid n -> (forall o, origin = Some o -> Valid o) ->
+  to_wire_file n origin canon = to_wire n origin canon.
+Proof.
+  intros Vn Vo. unfold to_wire_file, to_wire. destruct (is_absolute n) eqn:An; [reflexivity|].
+  destruct origin as [o|]; [|reflexivity]. destruct (is_absolute o) eqn:Ao; [|reflexivity].
+  specialize (Vo o eq_refl).
+  destruct (wire_length n + wire_length o >? 255) eqn:L.
+  - destruct (mk_name (n ++ o)) as [m|e|e] eqn:M; cbn [bind].
+    + apply mk_name_ok in M. destruct M as [_ (_ & T & _)]. rewrite wire_length_app in T. lia.
+    + unfold mk_name in M. destruct (validate_labels (n ++ o)) as [[]|e'|e'] eqn:Ve; inversion M; subst.
+      apply validate_error in Ve.
+      pose proof (Valid_relative_nonempty n Vn An) as NE.
+      destruct Vn as (N1 & _ & _). destruct Vo as (O1 & _ & O3).
+      destruct Ve as [[_ H]|[[-> _]|[_ (_ & H & _)]]]; [|reflexivity|].
+      * exfalso. apply H. apply Forall_app. split; assumption.
+      * rewrite wire_length_app in H. lia.
+    + exfalso. eapply mk_name_never_internal; eauto.
+  - assert (Valid (n ++ o)) as V by (apply Valid_app_abs; auto; lia).
+    rewrite (mk_name_valid _ V). cbn [bind]. rewrite wire_labels_app. reflexivity.
+Qed.
